@@ -216,7 +216,8 @@ def run(ctx, rep):
                     if zero:
                         nonfile_edge = tt["otherwise"] if neg else zero[0]
                         pb = [b2 for (f2, b2) in parse if f2 is f]
-                        if pb and all(x not in f.reachable_from(nonfile_edge) for x in pb):
+                        # within the same entry: a `continue` to the next directory entry is not a path to parse_some
+                        if pb and all(x not in f.reachable_from(nonfile_edge, cut_edges=C.back_edges(f)) for x in pb):
                             okf = True
             rep.check("C20.b", f"{be}/{short}/file-filter", okf, where=F.loc(), what=f"{be} {short}: non-files are skipped before the name is parsed")
     # ---- C20.c --------------------------------------------------------------------------------------
